@@ -248,7 +248,11 @@ def evaluate(ctx, res, drv, case, k, run):
         res.count("kind:" + l["kind"])
     # exit status: 9 iff something non-internal was reported (addon finding or internalError); other built-in findings none for t.c
     reported = [f for f in got if f["sev"] != "internal"]
-    if (rc == 9) != (len(reported) > 0):
+    # other built-in findings (e.g. debug messages, unmatchedSuppression) also set the status: only judge runs without them
+    start = se.find("<?xml")
+    others = [e.get("id") for e in ET.fromstring(se[start:]).iter("error")
+              if not (e.get("id").startswith(addon + "-") or e.get("id") in ("internalError", "checkersReport"))]
+    if not others and (rc == 9) != (len(reported) > 0):
         res.violation("exit status %d does not reflect the reported addon findings (%d)" % (rc, len(reported)), dict(case=desc), concrete=True, key=None)
     # P_impl (independent): each well-formed single-location line of an enabled severity exactly once
     if case["exitcode"] == 0 and not any(l["kind"] == "notbrace" for l in case["lines"]):
